@@ -185,7 +185,9 @@ Print Assumptions C18_kernels_agree.
    on every run, are the strict `<` of the model.  One strict order inside a worker AND across workers is what makes the
    selection a minimum (associative), hence ... *)
 Theorem C18_selection_rule_is_source : forall k,
-  (forall s b, better_src k s b = (s <? b)%Z) /\ (forall a b, src_c18_reduce_less a b = (a <? b)%Z) /  (forall c sf, cache_update_src k c sf = cache_update c sf) /  (forall n sched, fit_select_src k n sched = fit_select n sched).
+  (forall s b, better_src k s b = (s <? b)%Z) /\ (forall a b, src_c18_reduce_less a b = (a <? b)%Z) /\
+  (forall c sf, cache_update_src k c sf = cache_update c sf) /\
+  (forall n sched, fit_select_src k n sched = fit_select n sched).
 Proof.
   intro k. split; [intros; apply better_src_strict|]. split; [intros; apply reduce_less_strict|].
   split; [intros; apply cache_update_src_eq | intros; apply fit_select_src_eq].
@@ -205,7 +207,9 @@ Print Assumptions C18_fit_select_src_schedule_independent.
    features with DIFFERENT scores 10 and 9 are selected depending on whether they were evaluated by the same worker *)
 Theorem C18_epsilon_rule_refuted :
   exists eps n (sched1 sched2 : list (nat * (Z * Z))),
-    Forall (fun a => fst a < n) sched1 /\ Forall (fun a => fst a < n) sched2 /    Permutation (map snd sched1) (map snd sched2) /\ NoDup (map fst (map snd sched1)) /    fit_select_eps eps n sched1 <> fit_select_eps eps n sched2.
+    Forall (fun a => fst a < n) sched1 /\ Forall (fun a => fst a < n) sched2 /\
+    Permutation (map snd sched1) (map snd sched2) /\ NoDup (map fst (map snd sched1)) /\
+    fit_select_eps eps n sched1 <> fit_select_eps eps n sched2.
 Proof.
   exists 2%Z, 2, [(0, (10%Z, 0%Z)); (0, (9%Z, 1%Z))], [(0, (10%Z, 0%Z)); (1, (9%Z, 1%Z))].
   split; [repeat constructor|]. split; [repeat constructor|]. split; [apply Permutation_refl|].
@@ -313,6 +317,10 @@ Example C18_nonvacuous_workers :
 Proof. vm_compute. repeat split. Qed.
 
 Example C18_nonvacuous_selection_rule :
-  fit_select_src WAffine 2 [(0, (10, 0)%Z); (1, (9, 1)%Z)] = Some (9, 1)%Z /  fit_select_src WAffine 1 [(0, (10, 0)%Z); (0, (9, 1)%Z)] = Some (9, 1)%Z /  fit_select_src (WTable 2) 3 [(2, (7, 0)%Z); (0, (8, 1)%Z); (2, (6, 2)%Z)] = Some (6, 2)%Z /  cache_update_src WStump (Some (5, 0)%Z) (5, 1)%Z = Some (5, 0)%Z /  fit_select_eps 2 1 [(0, (10, 0)%Z); (0, (9, 1)%Z)] = Some (10, 0)%Z.
+  fit_select_src WAffine 2 [(0, (10, 0)%Z); (1, (9, 1)%Z)] = Some (9, 1)%Z /\
+  fit_select_src WAffine 1 [(0, (10, 0)%Z); (0, (9, 1)%Z)] = Some (9, 1)%Z /\
+  fit_select_src (WTable 2) 3 [(2, (7, 0)%Z); (0, (8, 1)%Z); (2, (6, 2)%Z)] = Some (6, 2)%Z /\
+  cache_update_src WStump (Some (5, 0)%Z) (5, 1)%Z = Some (5, 0)%Z /\
+  fit_select_eps 2 1 [(0, (10, 0)%Z); (0, (9, 1)%Z)] = Some (10, 0)%Z.
 Proof. vm_compute. repeat split. Qed.
 
